@@ -36,3 +36,8 @@ def run(ctx) -> None:
     # D3: end to end on token templates: compiled $deref regex vs the normaliser's output, all presence patterns and spellings
     from ..shapes import deref_end_to_end
     deref_end_to_end(ctx, make_interp(ctx.p), "C06.D3.compiled-deref-accepts-normalised-operand", "C06.D3.other-presence-patterns-rejected")
+    # W: the canonical witness listing of every skeleton is found, first character to last (stream templates)
+    from ..models import make_interp as _mkw
+    from ..streamshapes import witnesses
+    if ctx.tier == "thorough" or ('deref',):
+        witnesses(ctx, _mkw(ctx.p), "C06.W.canonical-witness-is-found", tags=('deref',) if ctx.tier != "thorough" or "C06" != "C07" else ())
